@@ -78,10 +78,13 @@ Zero(r, f)      == Lookup(r.zero, f, "?")
 
 \* The request message the handler must see (contract).  Where URL and body both mention a field
 \* either value is allowed, hence a set of admissible tokens per field.
+\* (for a repeated field mentioned by both, the statement leaves the result open: Any)
+CardOf(r, f) == (CHOOSE d \in Range(r.rpc.fdefs) : d.name = f).card
 Admissible(r, f) ==
   LET fromUrl  == IF UrlSets(r, f) THEN {UrlTok(r, f)} ELSE {}
       fromBody == IF f \in Mentions(r) THEN {Lookup(r.body.vals, f, "?")} ELSE {}
   IN  IF fromUrl \cup fromBody = {} THEN {Zero(r, f)} ELSE fromUrl \cup fromBody
+BothMentionRepeated(r, f) == UrlSets(r, f) /\ f \in Mentions(r) /\ CardOf(r, f) = "rep"
 
 \* D_body_resets_url (known finding): a non-empty body on a body verb resets the message after
 \* URL binding, so URL-bound fields the body does not mention arrive as their zero value.
@@ -93,6 +96,7 @@ SawOK(r, s) ==
   /\ DOMAIN s = Range(r.rpc.fields)
   /\ \A f \in DOMAIN s :
         \/ s[f] \in Admissible(r, f) \cup DevAdmissible(r, f)
+        \/ BothMentionRepeated(r, f)
         \* a leniently decoded body leaves body-carried fields unconstrained
         \/ (r.body.cls = "lenient" /\ BodyApplies(r) /\ f \notin UrlBound(r))
 
